@@ -80,7 +80,7 @@ package encoder
 // encoder's bytes followed by a newline unless NoEncoderNewline; an encode error
 // writes nothing; if any Write fails - including the newline's - the error is returned.
 //@ func (*StreamEncoder).Encode props C17
-//@   requires enc != nil && enc.w != nil
+//@   requires enc != nil && enc.w != nil && $wlen >= 0
 //@   modifies $wlen, $wbuf, $wfail
 //@   ensures !encOK(val, enc.Opts) ==> (err != nil && $wlen == old($wlen) && $wfail == old($wfail))
 //@   ensures (len(enc.indent) == 0 && len(enc.prefix) == 0 && err == nil) ==> $wlen == old($wlen) + len(encOut(val, enc.Opts)) + ite(enc.Opts & NoEncoderNewline == 0, 1, 0)
